@@ -37,7 +37,7 @@ const (
 		"(no element less than its predecessor, resp. successor); Stable variants additionally: equal keys in increasing original " +
 		"index, and identical to sort.SliceStable; BinarySearch (int, string, float64) and BinarySearchFunc on the ascending " +
 		"slice for every target -1..7: result = smallest index whose element is not less than the target, len if none (linear scan); " +
-		"non-trivial = at least 3 elements and at least one tie"
+		"non-trivial = at least 3 elements and at least one tie; one case in eight is run once more as 4 independent copies in parallel goroutines"
 )
 
 var strTable = []string{"", "A", "a", "aa", "ab", "b", "ba", "c", "~"}
